@@ -5,7 +5,7 @@ use crate::runner::*;
 use nodejs_semver::{Identifier, Version};
 use serde_json::json;
 
-pub const RULE: &str = "cases = (a,b,c) and (a,b,c,d) tuples of each of the ten integer types; U8 all 64^3 (quick) / 256^3 (thorough) u8 triples and a 24-value (quick) / 40-value subset^4 of quadruples, I8 all non-negative i8 triples 128^3 (thorough) / 32^3 (quick), W boundary values {0,1,255,256,65535,65536,2^31-1,2^32,MAX_SAFE-1,MAX_SAFE} in every position for the wider types; oracle = all five fields equal those of Version::parse(\"a.b.c\") / parse(\"a.b.c-d\"), prints as that string, pre_release == [Numeric(d)], all integer types that can hold the values agree; non-trivial = not all components equal (a swap would show); distinct = distinct (type, tuple)";
+pub const RULE: &str = "cases = (a,b,c) and (a,b,c,d) tuples of each of the ten integer types; U8 all 64^3 (quick) / 256^3 (thorough) u8 triples and a 24-value (quick) / 40-value subset^4 of quadruples, I8 all non-negative i8 triples 128^3 (thorough) / 32^3 (quick), W 17 boundary values in every position for all ten types, R random values of every magnitude up to MAX_SAFE for all types that can hold them; oracle = all five fields equal those of Version::parse(\"a.b.c\") / parse(\"a.b.c-d\"), prints as that string, pre_release == [Numeric(d)], all integer types that can hold the values agree; non-trivial = not all components equal (a swap would show); distinct = distinct (type, tuple)";
 
 fn same_fields(a: &Version, b: &Version) -> bool {
     a.major == b.major && a.minor == b.minor && a.patch == b.patch && a.pre_release == b.pre_release && a.build == b.build
@@ -181,6 +181,23 @@ pub fn run(ctx: &mut Ctx) {
                 }
             }
         }
+    }
+    ctx.stratum("R-random-values-wide-types", false);
+    let nr = ctx.tier.n(20_000, 2_000_000);
+    for i in 0..nr {
+        if !ctx.take() {
+            continue;
+        }
+        let mut r = crate::rng::Rng::for_case(ctx.seed, "C18-R", i);
+        // values spread over all magnitudes up to MAX_SAFE
+        let mut val = |r: &mut crate::rng::Rng| -> u64 {
+            let bits = 1 + r.below(50) as u32;
+            (r.next() & ((1u64 << bits) - 1)).min(crate::mv::MAX_SAFE)
+        };
+        let (a, b, c, d) = (val(&mut r), val(&mut r), val(&mut r), val(&mut r));
+        ctx.class("random/all-types");
+        all_types3(ctx, a, b, c);
+        all_types4(ctx, a, b, c, d);
     }
     ctx.sample(|| json!({"note": "tuples are enumerated, e.g. (u8) (0,0,255), (i8) (0,127,0), all ten types at (MAX_SAFE,0,1)"}));
 }
